@@ -20,8 +20,8 @@ EXTENDS BrokerAbs, Json, IOUtils, TLCExt
 
 Traces == JsonDeserialize(IOEnv.TRACE_FILE)
 
-VARIABLES tid, l, calls, chk, devs, taint, rdl, rdls, dead, unsure, enqAt, ovt, mvAt
-tvars == <<tid, l, calls, chk, devs, taint, rdl, rdls, dead, unsure, enqAt, ovt, mvAt>>
+VARIABLES tid, l, calls, chk, devs, taint, rdl, rdls, dead, unsure, enqAt, ovt, mvAt, hot
+tvars == <<tid, l, calls, chk, devs, taint, rdl, rdls, dead, unsure, enqAt, ovt, mvAt, hot>>
 allvars == <<vars, tvars>>
 
 Ev == Traces[tid][l]
@@ -34,25 +34,29 @@ Call(k) == IF k \in DOMAIN calls THEN calls[k] ELSE NoCall
 Done(k) == calls' = [calls EXCEPT ![k].done = TRUE]
 
 TInit == /\ Init
-         /\ tid \in 1..Len(Traces) /\ l = 1 /\ calls = <<>> /\ chk = {} /\ devs = {} /\ taint = {} /\ rdl = [i \in Ids |-> 0] /\ rdls = [i \in Ids |-> 0] /\ dead = {} /\ unsure = {} /\ enqAt = [i \in Ids |-> 0] /\ ovt = [i \in Ids |-> 0] /\ mvAt = [i \in Ids |-> 0]
+         /\ tid \in 1..Len(Traces) /\ l = 1 /\ calls = <<>> /\ chk = {} /\ devs = {} /\ taint = {} /\ rdl = [i \in Ids |-> 0] /\ rdls = [i \in Ids |-> 0] /\ dead = {} /\ unsure = {} /\ enqAt = [i \in Ids |-> 0] /\ ovt = [i \in Ids |-> 0] /\ mvAt = [i \in Ids |-> 0] /\ hot = [c \in Consumers |-> [p \in 0..10 |-> 0]]
          /\ TLCSet(tid, 1)
 
 THdr == /\ Is("hdr") /\ Step
         /\ chk' = ToSet(Ev.chk) /\ devs' = ToSet(Ev.devs)
-        /\ UNCHANGED <<vars, calls, taint, rdl, rdls, dead, unsure, enqAt, ovt, mvAt>>
+        /\ UNCHANGED <<vars, calls, taint, rdl, rdls, dead, unsure, enqAt, ovt, mvAt, hot>>
 
 TCons == /\ Is("cons") /\ Step
          /\ cons' = [cons EXCEPT ![Ev.c] = [on |-> FALSE, q |-> Ev.q, cat |-> Ev.cat, topics |-> ToSet(Ev.topics)]]
-         /\ UNCHANGED <<now, st, loc, meta, holder, origin, deliv, ret, norder, transit, pend, calls, chk, devs, taint, rdl, rdls, dead, unsure, enqAt, ovt, mvAt>>
+         /\ UNCHANGED <<now, st, loc, meta, holder, origin, deliv, ret, norder, transit, pend, calls, chk, devs, taint, rdl, rdls, dead, unsure, enqAt, ovt, mvAt, hot>>
 
 (* C05 bounded latency: a consume() call of a normal consumer that has been waiting since before *)
 (* message i fell due is not still empty-handed after i's deadline (dl = due + latency bound),    *)
 (* while i is waiting, matching and alive.                                                       *)
 Dev(name) == name \in devs
+(* the clock reading at position pos of the trace *)
+TimeAt(pos) == LET ks == {k \in 1..pos : Traces[tid][k].e = "time"} IN
+               IF ks = {} THEN 1 ELSE Traces[tid][CHOOSE k \in ks : \A j \in ks : j <= k].now
 
 (* known finding (RabbitMQ): per-message TTL expires at the head of the delay queue only, so a delayed  *)
 (* message waits behind any message of the same delay queue that falls due later                       *)
-BlockedBehind(i) == \E j \in Ids : j # i /\ Live(j) /\ loc[j] = U("d") /\ meta[j].q = meta[i].q /\ meta[j].due > meta[i].due
+BlockedBehind(i) == /\ enqAt[i] < meta[i].due        \* (i itself went to the delay queue because its due time was ahead)
+                    /\ \E j \in Ids : j # i /\ Live(j) /\ loc[j] = U("d") /\ meta[j].q = meta[i].q /\ meta[j].due > meta[i].due
 Starved(t, headOfLine) ==
     \E k \in DOMAIN calls : \E i \in Ids :
         /\ ~(headOfLine /\ loc[i] = U("d") /\ BlockedBehind(i))
@@ -66,7 +70,7 @@ Starved(t, headOfLine) ==
 TTime == /\ Is("time") /\ Step
          /\ Ev.now >= now /\ now' = Ev.now
          /\ ("latency" \in chk => (~Starved(Ev.now, FALSE) \/ (Dev("rabbit_head_of_line") /\ ~Starved(Ev.now, TRUE))))
-         /\ UNCHANGED <<st, loc, meta, holder, origin, deliv, ret, cons, norder, transit, pend, calls, chk, devs, taint, rdl, rdls, dead, unsure, enqAt, ovt, mvAt>>
+         /\ UNCHANGED <<st, loc, meta, holder, origin, deliv, ret, cons, norder, transit, pend, calls, chk, devs, taint, rdl, rdls, dead, unsure, enqAt, ovt, mvAt, hot>>
 
 TBegin == /\ Is("begin") /\ Step
           /\ calls' = (Ev.k :> [op |-> Ev.op, c |-> Ev.c, i |-> Ev.i, m |-> MetaOf(Ev.m), done |-> FALSE, t0 |-> now, l0 |-> l,
@@ -76,7 +80,7 @@ TBegin == /\ Is("begin") /\ Step
           \* the fate of a message that is in flight while its queue is flushed / deleted is broker-specific (it goes with
           \* the queue now, or later when its holder settles it, or stays): it is followed, but not judged, from here on
           /\ taint' = IF Ev.op = "flush" THEN taint \cup InFlight(Ev.m.q) ELSE taint
-          /\ UNCHANGED <<chk, devs, rdl, rdls, dead, unsure, enqAt, ovt, mvAt>>
+          /\ UNCHANGED <<chk, devs, rdl, rdls, dead, unsure, enqAt, ovt, mvAt, hot>>
 
 -----------------------------------------------------------------------------
 (* Deviation actions: behaviours of the pinned code that the contract forbids.  They are        *)
@@ -149,6 +153,7 @@ DevRedisDoubleTakeGhost(c, i, new) ==
 DevRedisPrefetchExpiry(c, i) ==
     /\ Dev("redis_prefetch_expiry") /\ "ttl" \in chk
     /\ Overdue(i) /\ cons[c].cat = "n"
+    /\ meta[i].exp >= TimeAt(mvAt[i])        \* (it was alive when the consumer took it: it expired in the local queue)
     /\ Deliver(c, i, chk \ {"ttl"})
 
 (* the Redis consumer's overdue check is not restricted to the normal category *)
@@ -273,9 +278,9 @@ TMove ==
     /\ rdl' = IF Ev.rdl # 0 THEN [rdl EXCEPT ![Ev.i] = Ev.rdl] ELSE rdl
     /\ rdls' = IF Ev.rdl # 0 THEN [rdls EXCEPT ![Ev.i] = Ev.rdls] ELSE rdls
     /\ UNCHANGED <<chk, devs, dead, unsure>>
-    /\ enqAt' = IF st[Ev.i] = "new" THEN [enqAt EXCEPT ![Ev.i] = now] ELSE enqAt
+    /\ enqAt' = IF st[Ev.i] = "new" \/ (Call(Ev.k).op = "requeue" /\ Call(Ev.k).i = Ev.i /\ Vec(Ev.v) # Zero) THEN [enqAt EXCEPT ![Ev.i] = now] ELSE enqAt
     /\ ovt' = OvtAfter(Ev.i)
-    /\ mvAt' = [mvAt EXCEPT ![Ev.i] = l]
+    /\ mvAt' = [mvAt EXCEPT ![Ev.i] = l] /\ hot' = hot
     \* (the Redis fetch-window defect, once listed as a known finding, also explains unbounded overtaking)
     /\ (("starve" \in chk /\ ~Dev("redis_lifo_window")) => \A j \in Ids : ovt'[j] <= StarveBound)
 
@@ -322,16 +327,23 @@ TEnd ==
     \* a start() that was interrupted may or may not have taken effect: that consumer is not known to be listening
     /\ unsure' = IF (Call(Ev.k).op = "start" /\ Ev.st # "ok") THEN unsure \cup {Call(Ev.k).c} ELSE unsure
     /\ UNCHANGED <<chk, devs, rdl, rdls, dead, enqAt, ovt, mvAt>>
+    \* C15 at the hand-over: the messages a consumer has taken (prefetched) reach its client in the order they were taken -- a
+    \* message is not handed over after one of the same priority that the consumer took later (hot: per consumer and priority,
+    \* the latest take position among the messages handed over so far; a returned message gets a new position when taken again)
+    /\ LET cl == Call(Ev.k)  handed == (cl.op = "consume" /\ Ev.st = "ok")
+           pr == IF handed /\ meta[Ev.i].prio \in 0..10 THEN meta[Ev.i].prio ELSE 0 IN
+       /\ hot' = IF handed THEN [hot EXCEPT ![cl.c][pr] = IF mvAt[Ev.i] > @ THEN mvAt[Ev.i] ELSE @] ELSE hot
+       /\ (handed /\ "fifo" \in chk /\ Ev.i \notin taint /\ cons[cl.c].cat = "n") => mvAt[Ev.i] > hot[cl.c][pr]
 
 (* full observation of the broker: the contract state must agree with it for every id *)
 TObs == /\ Is("obs") /\ Step
         /\ \A j \in Ids : loc[j] = (IF j <= Len(Ev.v) THEN Vec(Ev.v[j]) ELSE Zero)
-        /\ UNCHANGED <<vars, calls, chk, devs, taint, rdl, rdls, dead, unsure, enqAt, ovt, mvAt>>
+        /\ UNCHANGED <<vars, calls, chk, devs, taint, rdl, rdls, dead, unsure, enqAt, ovt, mvAt, hot>>
 
 (* the process owning these consumers died without any cleanup *)
 TCrash == /\ Is("crash") /\ Step
           /\ dead' = dead \cup ToSet(Ev.cs)
-          /\ UNCHANGED <<vars, calls, chk, devs, taint, rdl, rdls, unsure, enqAt, ovt, mvAt>>
+          /\ UNCHANGED <<vars, calls, chk, devs, taint, rdl, rdls, unsure, enqAt, ovt, mvAt, hot>>
 
 TraceConsCfgs == {[c \in Consumers |-> [on |-> FALSE, q |-> 0, cat |-> "n", topics |-> {}]]}
 TNext == THdr \/ TCrash \/ TObs \/ TCons \/ TTime \/ TBegin \/ TMove \/ TEnd
